@@ -214,7 +214,7 @@ pub fn deep_hist_strategy(max_rounds: usize) -> impl Strategy<Value = Hist> {
 /// a few large batches (60-150 random labels each, later batches re-publishing parts of them):
 /// deep trees, wide parallel insertion, many decompressions
 pub fn wide_hist_strategy() -> impl Strategy<Value = Hist> {
-    (proptest::collection::vec(proptest::collection::vec(any::<u8>(), 1..6), 60..150), 1usize..4, any::<u16>()).prop_map(|(labels, rounds, salt)| {
+    (proptest::collection::vec(proptest::collection::vec(any::<u8>(), 1..6), 60..200), 1usize..4, any::<u16>()).prop_map(|(labels, rounds, salt)| {
         let n = labels.len() as u32;
         let selector = |i: u32| ((i as u64 * 65536 + 32768) / n as u64) as u16;
         let mut batches = vec![Batch { ops: (0..n).map(|i| Op::Set(selector(i), (i as u16).wrapping_mul(salt | 1))).collect(), dup: false }];
